@@ -59,6 +59,34 @@ def positive(R, B, rng, roots, W):
     return b, desc
 
 
+def width_product(R, B, rng):
+    """the small dimensions exhaustively: every admissible size width (minimal..4) x offset width (minimal..8) x flag combination x magic, for a handful of
+    tiny bags (a single empty cell, a single one-byte cell, two and three cells) - the encodings where fixed-size header arithmetic is most likely to be off"""
+    tiny = [rc.RC(''), rc.RC('1'), rc.RC('10101010'), rc.RC('', (rc.RC(''),)), rc.RC('1', (rc.RC('0'), rc.RC('0'))), rc.RC('11', (rc.RC('0', (rc.RC(''),)), rc.RC('')))]
+    for ti, r in enumerate(tiny):
+        n = len(rc.topo_order([r]))
+        for size in range(rc.minbytes(n), 5):
+            for off in range(1, 9):
+                variants = [dict(magic='generic', has_idx=i, has_crc=c, has_cache_bits=(i and k)) for i in (False, True) for c in (False, True) for k in ((False, True) if i else (False,))]
+                variants += [dict(magic='idx'), dict(magic='idx_crc')]
+                for kw in variants:
+                    try:
+                        b = rc.encode_boc([r], size=size, off_bytes=off, **kw)
+                    except rc.RefError:
+                        continue
+                    st, got = mon.call(B.Cell.from_boc, b)
+                    R.counters['oracle_evaluations'] += 1
+                    R.count('width_product_encodings')
+                    desc = dict(kw, size=size, off_bytes=off, cells=n, data_bytes=sum(len(c.serialize({x.hash: j for j, x in enumerate(rc.topo_order([r]))}, size)) for c in rc.topo_order([r])))
+                    if st == 'exc':
+                        R.exc(got)
+                        R.violation(f'valid-encoding-rejected-tiny-bag-size{size}-off{off}' if n == 1 and not r.bits else f'valid-encoding-rejected-small-bag-{kw["magic"]}',
+                                    f'conforming encoding of a {n}-cell bag ({desc}) rejected: {got!r}', {'boc': b, 'enc': {k: str(v) for k, v in desc.items()}})
+                    else:
+                        R.check(len(got) == 1 and got[0].hash == r.hash, 'root-differs-small-bag', f'{n}-cell bag ({desc}) parsed to another root', {'boc': b})
+        R.case(mon.fp('wp', ti))
+
+
 def must_reject(R, B, data, key, what, W):
     st, got = mon.call(B.Cell.from_boc, data)
     R.counters['oracle_evaluations'] += 1
@@ -192,7 +220,7 @@ def run(R):
     B = bridge.lib()
     rng = R.rng
     quick = R.tier == 'quick'
-    R.rule = ('positive: DAG classes x random conforming encodings (size/offset widths minimal..max, index, cache bits incl. set cache '
+    R.rule = ('positive: every size width x offset width x flag set x magic for six tiny bags (exhaustive); DAG classes x random conforming encodings (size/offset widths minimal..max, index, cache bits incl. set cache '
               'flags, CRC, stored hashes for masks 0/1/3/7, 1..4 roots at arbitrary positions incl. repeats, random linear extension, '
               '3 magics); negative: for bases <= 320 bytes EVERY single-bit flip of the CRC-protected form, EVERY truncation, extensions '
               'by 1..4 bytes, every reference slot rewritten to self/each earlier index/cells_num/max with CRC resealed; '
@@ -218,6 +246,8 @@ def run(R):
         if len(cells) <= 12 and nb < (16 if quick else 60):
             negative(R, B, rng, [r], W)
             nb += 1
+    if R.shard == 0:
+        width_product(R, B, rng)
     # deterministic small bases so that the negative half never depends on what the random classes produced
     for r in (rc.RC(''), rc.RC('1', (rc.RC('0'), rc.RC('0'))), gen.chain(3), gen.ladder(3), gen.rand_dag(rng, 4, max_bits=12)):
         negative(R, B, rng, [r], {'class': 'fixed-small'})
@@ -227,6 +257,8 @@ def run(R):
     R.floor('neg:ref-backward', 3)
     R.floor('neg:ref-self', 3)
     R.floor('shifted_bases', 5)
+    if R.shard == 0:
+        R.floor('width_product_encodings', 1000)
     R.floor('shift:prepended-root-after-valid-parse:reject', 3)
     for v in ('generic', 'idx', 'idx_crc'):
         pass
